@@ -158,6 +158,8 @@ NAMED = {
     "cycle_via_cycle": (6, ((0, 1), (1, 2), (2, 1), (2, 3), (3, 4), (4, 3), (3, 2), (1, 5))),
     # two sources, two sinks around one SCC
     "two_in_two_out_scc": (6, ((0, 2), (1, 2), (2, 3), (3, 2), (3, 4), (3, 5))),
+    # three parallel exits from one 3-cycle to the same sink (condensation multiplicity 3)
+    "fan_out_of_cycle": (5, ((0, 1), (1, 2), (2, 3), (3, 1), (1, 4), (2, 4), (3, 4))),
     # DAG given to a cyclic model: diamond with a chord
     "dag_diamond_chord": (4, ((0, 1), (0, 2), (1, 2), (1, 3), (2, 3))),
     # SCC bypassed by a parallel arc
